@@ -57,4 +57,10 @@ CHECKS["C27"] = dict(level="exploration", technique="TLC-enumerated decision tab
     text="The policy table (kind x policy x position of the value relative to inclusive bounds) is enumerated completely by TLC for "
          "scalars, quantities and every component of 1D/2D/3D stensors; the harness observes throw / number of warnings; TLC judges equality with the table.",
     note="Library-level BoundsCheck only; mfront-emitted checks are covered by C38-C40.", ref="8/C27")
+CHECKS["C07"] = dict(level="exploration", technique="TLC-generated integer systems with known solution / known singularity, judged by TLC (LinearSolve.tla)",
+    text="Systems are built in the specification with integer solutions (b = A.x0) and exactly known determinants: all 1x1/2x2 matrices over "
+         "-2..2, 3x3 over -1..1, P.L.U constructions of size 4..12 that need pivoting, and structurally singular variants; seven solver entry "
+         "points (LUSolve, LUDecomp+back substitution, TinyMatrixSolve throw/bool/matrix rhs incl. the 1x1-3x3 closed forms, TinyMatrixInvert, "
+         "QRDecomp) are run on each and TLC judges 'solution = x0' or 'failure reported'.",
+    note="Ill-conditioned non-integer systems are not explored; QRDecomp's silence on singular systems is a recorded known finding.", ref="8/C07")
 NOT_APPLICABLE = {}
